@@ -301,7 +301,7 @@ def c01(ck):
         if r["k"] == "BAD":
             ck.violation("panic:" + json.dumps(r["t"]) + ":" + r["cfg"], "real code panicked/spun on %r via %s: %s" % (r["t"][:80], r["cfg"], r["panic"][:200]), r)
     work = [r for r in recs if r["k"] == "WORK"]
-    # scaling of CPU time over 35 input families x 3 interfaces (work that is not an input operation)
+    # scaling of CPU time over 37 input families x 3 interfaces (work that is not an input operation)
     sf = ck.wd("scale.ndjson")
     sc = vh_json(["scale", "--out", sf] + (["--base", "50000"] if ck.tier == "thorough" else []), timeout=3600)
     scale = read_ndjson(sf)
